@@ -224,3 +224,63 @@ pub fn run_d(ctx: &Ctx) -> u64 {
     });
     hists.len() as u64
 }
+
+// Part (e): `$!` after a `bg` that resumes nothing. "`$!` is the process ID of the last
+// asynchronous command started *or resumed in the background*" (special.md, bg.md): a `bg` that
+// fails before it resumes a job — the job is not job-controlled (started while `-m` was off),
+// belongs to the parent of the current subshell, or the `[n] name` line cannot be written —
+// leaves `$!` designating the job it designated before. Every scenario x job-ID form x number of
+// jobs started afterwards.
+
+fn bang_of(t: &str) -> Option<i64> {
+    let i = t.find("bang=")?;
+    t[i + 5..].split(' ').next()?.parse().ok()
+}
+fn status_of(t: &str) -> Option<i64> {
+    let i = t.find("st=")?;
+    t[i + 3..].split(' ').next()?.parse().ok()
+}
+
+/// Returns the number of scripts.
+pub fn run_e(ctx: &Ctx) -> u64 {
+    let mut scripts: Vec<(String, &'static str)> = vec![];
+    for id in ["%1", "%-", "%?hang", "%hang"] {
+        for later in ["{ stopself; s 3; } &", "hang2 &", "hang2 & hang2 &"] {
+            // (1) the operand is a job started while job control was off
+            scripts.push((format!("set +m\nhang &\nset -m\n{later}\njl before\nbg {id}\njl after\nkill -s KILL %1 %2 %3\ns 0\n"), "unmonitored"));
+            // (2) the job list line cannot be written
+            scripts.push((format!("set -m\n{{ stopself; hang; }} &\n{later}\njl before\nbg {id} >&-\njl after\nkill -s KILL %1 %2 %3\ns 0\n").replace("%?hang", "%?stopself").replace("%hang", "%{"), "output-error"));
+            // (3) the job belongs to the parent of the subshell
+            scripts.push((format!("set -m\nhang &\n{later}\n(jl before; bg {id}; jl after)\nkill -s KILL %1 %2 %3\ns 0\n"), "unowned"));
+        }
+    }
+    scripts.par_iter().for_each(|(script, kind)| {
+        let script = script.replace("hang2", "hang");
+        let mut setup = Setup::script(&script);
+        setup.auto_continue = false;
+        let _g = case_guard(format!("bang after bg: {script}"));
+        let r = vsh::run_once(&setup, &Default::default());
+        let case = json!({"part": "c", "script": script, "non_interactive": true});
+        if r.panic.is_some() || matches!(r.end, End::Deadlock | End::Livelock) {
+            ctx.violation("c12e:end", &format!("{:?} {:?}", r.end, r.panic), case);
+            return;
+        }
+        let tr = r.all_trace();
+        let (Some(b), Some(a)) = (tr.iter().find(|t| t.starts_with("jl before ")), tr.iter().find(|t| t.starts_with("jl after "))) else {
+            ctx.violation("c12e:end", &format!("the dumps are missing: {tr:?} stderr={:?}", r.stderr), case);
+            return;
+        };
+        // the scenarios are built so that this `bg` fails; if it does not, nothing is judged
+        if status_of(a) == Some(0) {
+            return;
+        }
+        if bang_of(b) != bang_of(a) {
+            ctx.violation(
+                "c12e:bang-changed-by-failed-bg",
+                &format!("({kind}) a `bg` that failed (status {:?}) and resumed nothing changed $! from {:?} to {:?}", status_of(a), bang_of(b), bang_of(a)),
+                case,
+            );
+        }
+    });
+    scripts.len() as u64
+}
